@@ -202,7 +202,11 @@ def _expr_strings(e, acc):
 def alphabet(case):
     acc = set(RESERVED)
     if case.get("kind") == "tok":
-        _expr_strings(case["expr"], acc)
+        for e in _tok_exprs(case):
+            _expr_strings(e, acc)
+        if case.get("alias"):
+            acc.add(case["alias"][0])
+            acc.add(case["alias"][2])
         if case["val"].get("c") is not None:
             _strings(case["val"]["c"], acc)
         return sorted(acc)
@@ -1380,31 +1384,33 @@ def _shallow(o):
     return tuple(_ref(v) for v in o)
 
 
+def _tok_exprs(case):
+    return case["exprs"] if "exprs" in case else [case["expr"]]
+
+
 def _tok_run_impl(case):
     try:
-        v = build(case["expr"])
+        vs = [build(e) for e in _tok_exprs(case)]
     except Exception as e:
         return {"e": exc_name(e), "phase": "init"}
     ids, alive = {}, []
-    res = {"vc": _tv(v.var_context, ids, alive)}
-    var_objs = set(_reach(v.var_context, set()))
+    res = {"vcs": [_tv(v.var_context, ids, alive) for v in vs]}
+    var_objs = set()
+    for v in vs:
+        _reach(v.var_context, var_objs)
     x = _mkval(case["val"])
+    if case.get("alias") and isinstance(x, tuple):
+        ck, vi, vk = case["alias"]
+        if vk in vs[vi].var_context:
+            x[1][ck] = vs[vi].var_context[vk]
     if isinstance(x, tuple):
         _tv(x[1], ids, alive)
     res["next"] = len(ids)
     steps = []
-    for _ in range(case["reps"]):
+    for v in vs * case["reps"]:
         before = {id(o): _shallow(o) for o in alive}
         ctx_in = x[1] if isinstance(x, tuple) else None
         frame_in = {k: (id(w) if _is_mut(w) else None, copy.deepcopy(w)) for k, w in (ctx_in or {}).items() if k != "variable"}
-        spine = set()
-        if ctx_in is not None:
-            spine.add(id(ctx_in))
-            cv = ctx_in.get("variable")
-            if isinstance(cv, dict):
-                spine.add(id(cv))
-                if isinstance(cv.get("compose"), list):
-                    spine.add(id(cv["compose"]))
         known = len(ids)
         ctoks = sorted(ids[i] for i in _reach(ctx_in, set())) if ctx_in is not None else []
         try:
@@ -1425,7 +1431,6 @@ def _tok_run_impl(case):
         if ctx_in is not None:
             st["in_frame"] = [k for k, (i, w) in frame_in.items() if k not in ctx_in or ctx_in[k] != w] + \
                              [k for k in ctx_in if k != "variable" and k not in frame_in]
-        st["outside_spine"] = sorted(t for t in changed if t < known and alive[t] is not None and id(alive[t]) not in spine)
         steps.append(st)
         x = out
     res["steps"] = steps
@@ -1435,8 +1440,12 @@ def _tok_run_impl(case):
 def _tok_model_requests(case):
     names = alphabet(case)
     v = case["val"]
-    return [{"op": "tok", "names": names, "fx": detect_fx(), "nk": detect_nk(), "expr": expr_to_model(case["expr"], names),
-             "val": {"d": v["d"], "c": None if v.get("c") is None else to_model(v["c"], names)}, "reps": case["reps"]}]
+    req = {"op": "tok", "names": names, "fx": detect_fx(), "nk": detect_nk(),
+           "exprs": [expr_to_model(e, names) for e in _tok_exprs(case)],
+           "val": {"d": v["d"], "c": None if v.get("c") is None else to_model(v["c"], names)}, "reps": case["reps"]}
+    if case.get("alias"):
+        req["alias"] = case["alias"]
+    return [req]
 
 
 def _tv_from_model(m, names, ren):
@@ -1453,6 +1462,20 @@ def _tv_from_model(m, names, ren):
     return {"dd": {names[i]: _tv_from_model(x, names, ren) for i, x in enumerate(m["d"]) if x is not None}, "k": k}
 
 
+def _vc_tokens(res):
+    acc = set()
+
+    def walk(t):
+        if isinstance(t, dict):
+            if "k" in t:
+                acc.add(t["k"])
+            for x in (t.get("l") or t.get("t") or list((t.get("dd") or {}).values())):
+                walk(x)
+    for t in res["vcs"]:
+        walk(t)
+    return acc
+
+
 def _tok_compare(case, res, replies):
     names = alphabet(case)
     m = replies[0]
@@ -1463,8 +1486,8 @@ def _tok_compare(case, res, replies):
             return f"construction: impl {res if 'e' in res else 'ok'} vs model {m if 'e' in m else 'ok'}"
         return None
     ren = {i: i for i in range(m["next"])}
-    if m["next"] != res["next"] or _tv_from_model(m["vc"], names, ren) != res["vc"]:
-        return f"numbering of the objects: impl next={res['next']} vc={res['vc']} vs model next={m['next']} vc={m['vc']}"
+    if m["next"] != res["next"] or [_tv_from_model(x, names, ren) for x in m["vcs"]] != res["vcs"]:
+        return f"numbering of the objects: impl next={res['next']} vcs={res['vcs']} vs model next={m['next']} vcs={m['vcs']}"
     if len(m["r"]) != len(res["steps"]):
         return f"{len(res['steps'])} steps in the implementation, {len(m['r'])} in the model"
     nexts = []
@@ -1475,8 +1498,9 @@ def _tok_compare(case, res, replies):
             nexts.append(b["e"])
             continue
         nexts.append(b["next"])
-        if not b["sep"]:
-            return f"step {i}: the hypothesis sepB of the token theorems does not hold on a generated case"
+        if bool(b["sep"]) == bool(case.get("alias") and i == 0 and a["ctoks"] and set(a["ctoks"]) & _vc_tokens(res)):
+            return (f"step {i}: the hypothesis sepB of the token theorems is {b['sep']}; expected "
+                    f"{'false (aliasing case)' if b['sep'] else 'true'}")
         if from_model(b["erased"], names) != a["erased"]:
             return f"step {i}: erased result {b['erased']} vs impl {a['erased']}"
         if not a["same_ctx"] or a["frame_id"]:
@@ -1496,8 +1520,8 @@ def _tok_compare(case, res, replies):
         sp = set(ren[t] for t in b["spine"] if t in ren)
         if not set(t for t in a["changed"] if t in old) <= sp | set(t for t in w if t not in old):
             return f"step {i}: objects changed {a['changed']}, spine {sorted(sp)}"
-    if m["calls"] != nexts:
-        return f"callsT {m['calls']} differs from the step-wise iteration {nexts}"
+    if m["calls"] != nexts or (m.get("calls1") is not None and m["calls1"] != nexts):
+        return f"seqT {m['calls']} / callsT {m.get('calls1')} differ from the step-wise iteration {nexts}"
     return None
 
 
@@ -1530,15 +1554,18 @@ def _tok_cases(rng, n):
     for _ in range(n):
         g.n = 0
         r = rng.random()
-        if r < 0.85:
-            e = g.expr(TYPES)
-            val = g.pre_value()
+        if r < 0.45:
+            yield {"kind": "tok", "exprs": [g.expr(TYPES)], "val": g.pre_value(), "reps": rng.randint(1, 3)}
+        elif r < 0.85:
+            # a chain of different variables: objects move from one step's context into the next one's
+            yield {"kind": "tok", "exprs": [g.expr(TYPES) for _ in range(rng.randint(2, 4))], "val": g.pre_value(),
+                   "reps": rng.randint(1, 2)}
         else:
             w = _wild_case(rng)
             e, val = w["chain"][0], w["vals"][0]
             if e["k"] == "other":
                 continue
-        yield {"kind": "tok", "expr": e, "val": val, "reps": rng.randint(1, 3)}
+            yield {"kind": "tok", "exprs": [e], "val": val, "reps": rng.randint(1, 3)}
 
 
 def _tok_exhaustive():
@@ -1550,7 +1577,14 @@ def _tok_exhaustive():
              {"k": "combine", "args": [_leaf(1, "ta"), _leaf(2, "tb")], "kw": {"type": "tg", "a": {"l": [1]}}}]
     for e in exprs:
         for val in _pre_vals():
-            cases.append({"kind": "tok", "expr": e, "val": val, "reps": 3})
+            cases.append({"kind": "tok", "exprs": [e], "val": val, "reps": 3})
+    for val in _pre_vals():
+        cases.append({"kind": "tok", "exprs": [exprs[1], exprs[4], _leaf(5, "tc", {"b": {"l": [2]}})], "val": val, "reps": 2})
+    # aliasing: the value's context holds an object of the variable (sepB is false: outside the token theorems; the
+    # model and the implementation must still agree, and the variable must still not be changed)
+    val = {"d": 5, "c": {"d": {"x": 1, "variable": {"d": {"name": "z", "type": "p0", "p0": _sub("z")}}}}}
+    cases.append({"kind": "tok", "exprs": [exprs[0]], "val": val, "reps": 2, "alias": ["x", 0, "a"]})
+    cases.append({"kind": "tok", "exprs": [exprs[1], exprs[2]], "val": val, "reps": 1, "alias": ["y", 0, "ta"]})
     return cases
 
 
@@ -1589,7 +1623,10 @@ def classify(case, res):
     if _kind(case) == "tok":
         if "e" in res:
             return ["tok", "tok:init:" + res["e"]]
-        return ["tok", "tok:" + case["expr"]["k"]] + ["tok:step:" + (st["e"] if "e" in st else "ok") for st in res["steps"]]
+        return (["tok", "tok:chain" if len(_tok_exprs(case)) > 1 else "tok:" + _tok_exprs(case)[0]["k"]]
+                + (["tok:alias"] if case.get("alias") else [])
+                + ["tok:step:" + (st["e"] if "e" in st else ("ok" if st["same_ctx"] else "context-copied"))
+                   for st in res["steps"]])
     if _kind(case) == "attr":
         if "e" in res:
             return ["attr", "attr:init:" + res["e"]]
@@ -1605,15 +1642,20 @@ def shrink(case):
     if _kind(case) == "tok":
         if case["reps"] > 1:
             yield dict(case, reps=case["reps"] - 1)
-        e = case["expr"]
-        if e["k"] in ("compose", "combine"):
-            for a in e["args"]:
-                if a["k"] != "other":
-                    yield dict(case, expr=a)
-        for k in list(e.get("kw", {})):
-            kw = dict(e["kw"])
-            del kw[k]
-            yield dict(case, expr=dict(e, kw=kw))
+        es = _tok_exprs(case)
+        base = {k: v for k, v in case.items() if k != "expr"}
+        if len(es) > 1 and not case.get("alias"):
+            for i in range(len(es)):
+                yield dict(base, exprs=es[:i] + es[i + 1:])
+        for i, e in enumerate(es):
+            if e["k"] in ("compose", "combine") and not case.get("alias"):
+                for a in e["args"]:
+                    if a["k"] != "other":
+                        yield dict(base, exprs=es[:i] + [a] + es[i + 1:])
+            for k in list(e.get("kw", {})):
+                kw = dict(e["kw"])
+                del kw[k]
+                yield dict(base, exprs=es[:i] + [dict(e, kw=kw)] + es[i + 1:])
         return
     if _kind(case) == "attr":
         ops = case["ops"]
